@@ -58,6 +58,13 @@ class Cfg:
         """projection compared between implementation and model (a_P)"""
         return canon(ans)
 
+    def corr_view(self, req, ans, spec=None):
+        """what of an answer is compared between implementation and model for THIS request: outside
+        the domain the property quantifies over, only what the property still claims there (e.g.
+        panic-freedom), so that a rewrite that changes behaviour the property leaves open is not
+        reported"""
+        return self.project_corr(ans)
+
 
 class C01(Cfg):
     rule = ("RT <message> <suffix>: type-directed well-formed messages (every payload kind incl. network trace, both byte "
@@ -243,6 +250,13 @@ class C12(Cfg):
     def classify(self, req, ans, m=None):
         return "FIBEX:" + ans.split(" ", 1)[0]
 
+    def corr_view(self, req, ans, spec=None):
+        # "ends with a model or a refusal, never a hang or a panic": which of the two a damaged
+        # document gets, and what the model then holds, is C11's subject for well-formed documents
+        # and otherwise left open
+        head = ans.split(" ", 1)[0]
+        return head if head in ("HANG", "PANIC") else "returned"
+
 
 class C13(Cfg):
     rule = ("NVA <order> <types> <payload>: every kind (and pair of kinds) x both byte orders x every truncation point "
@@ -256,6 +270,16 @@ class C13(Cfg):
 
     def classify(self, req, ans, m=None):
         return "NVA:n=%s:%s" % (req.split()[2], ans.split(" ", 1)[0])
+
+    def corr_view(self, req, ans, spec=None):
+        # fixed-point kinds are not among the signal types the property lists: only "no input causes
+        # a panic" is claimed for them
+        t = req.split()
+        n = int(t[2])
+        kinds = [t[3 + 6 * k] for k in range(n)]
+        if any(k in ("2", "4") for k in kinds):
+            return "PANIC" if ans.startswith("PANIC") else "no-panic"
+        return self.project_corr(ans)
 
     def spec_ok(self, req, ans, spec):
         return ans == spec
@@ -335,6 +359,15 @@ class C17(Cfg):
         unit = 1000 if op == "FROMMS" else 1000000
         return n // unit < 2 ** 32 and n % unit != 0
 
+    def corr_view(self, req, ans, spec=None):
+        # the property quantifies over counts whose whole seconds fit in 32 bits
+        return self.project_corr(ans) if self.nontrivial_domain(req) else "out-of-domain"
+
+    @staticmethod
+    def nontrivial_domain(req):
+        op, n = req.split()
+        return int(n) // (1000 if op == "FROMMS" else 1000000) < 2 ** 32
+
     def classify(self, req, ans, m=None):
         op, n = req.split()
         n = int(n)
@@ -359,9 +392,16 @@ class C18(Cfg):
     def classify(self, req, ans, m=None):
         return "REAL:" + ans.split(" ", 1)[0]
 
+    def corr_view(self, req, ans, spec=None):
+        # where the property's premise does not hold (negative product, sum outside 0..2^63, 128-bit
+        # values, non-finite quantization) only "never panics" is claimed
+        if spec == "skip":
+            return "PANIC" if ans.startswith("PANIC") else "no-panic"
+        return self.project_corr(ans)
+
     def spec_ok(self, req, ans, spec):
-        """the crate's answer against Spec/Fixed.lean (exact dyadic arithmetic where double precision is
-        exact): `none` where the property demands nothing, the exact sum where it demands one"""
+        """the crate's answer against Spec/Fixed.lean (IEEE rounding by definition): `none` where the
+        property demands nothing, the exact sum where it demands one"""
         if spec == "skip":
             return True
         return ans == spec
@@ -484,6 +524,13 @@ class C09(Cfg):
 
     def nontrivial(self, req, ans, m=None):
         return ans.startswith("ITEM")
+
+    def corr_view(self, req, ans, spec=None):
+        # the property speaks about messages (the unfiltered parse yields one); what a filter does to
+        # input that is not a message is left open
+        if req.startswith("FILT") and not ans.startswith("ITEM"):
+            return "not-a-message"
+        return self.project_corr(ans)
 
     def classify(self, req, ans, m=None):
         if req.startswith("SKIPLVL"):
